@@ -3,7 +3,7 @@ every variable's value and tag after every cycle), the operator x type x boundar
 C01 the wide generator over every elementary type judged by the outcome contract only."""
 import json
 
-from common import (OUT, Report, ToolError, build_harness, digest, log, read_ndjson, run_tlc, seed, split_runs,
+from common import (OUT, REPO, Report, ToolError, build_harness, digest, log, read_ndjson, run_tlc, seed, split_runs,
                     tpv, validate_trace)
 
 VALUE_FAULTS = {"DivisionByZero", "ModuloByZero", "Overflow", "IndexOutOfBounds", "NullReference", "ForStepZero",
@@ -154,6 +154,43 @@ def run(prop, tier, replay):
                 continue
             rep.violation(key, {"wide": True, "k": r["k"], "seed": s, "source": r.get("src", ""), "outcome": r["res"], "frames": r["frames"]},
                           f"wide program #{r['k']}: outcome {r['res']}, frames {r['frames']}")
+    std_rows = []
+    if prop == "C01" and not replay:
+        # standard-library call matrix: every registered function and conversion x boundary values; a tuple is
+        # judged only if the compiler accepts the one-statement program that makes the call
+        import re
+        from stdlib_names import scrape
+        funcs = scrape(REPO)
+        if len([f for f in funcs if f["from"] == "registry"]) < 60:
+            raise ToolError(f"standard library scrape found only {len(funcs)} registered functions")
+        ff = work / "stdlib_funcs.ndjson"
+        with open(ff, "w") as f:
+            for x in funcs:
+                f.write(json.dumps(x) + "\n")
+        sf = work / "stdlib.ndjson"
+        tpv(["stlib-run", "--funcs", ff, "--out", sf, "--budget", 40000 if tier == "quick" else 1500000, "--seed", s], timeout=3000)
+        std_rows = [r for r in read_ndjson(sf) if r["a"] == "StdFn"]
+        if sum(r["calls"] for r in std_rows) < 1000000 or sum(1 for r in std_rows if r["okClasses"] > 0) < 250:
+            raise ToolError("standard library matrix: too few calls / callable functions")
+        signed, unsigned = {"SINT", "INT", "DINT", "LINT"}, {"USINT", "UINT", "UDINT", "ULINT"}
+        for r in std_rows:
+            for c in r["confirmed"]:
+                ts = set(c["types"].split(","))
+                name = r["name"]
+                if c["res"] in ("Panic", "Abort"):
+                    key = f"stdlib:{c['res'].lower()}:{name}"
+                elif signed & ts and unsigned & ts:
+                    key = f"stdlib:static-error:{c['res']}:mixed-sign"
+                elif name in ("LEFT", "RIGHT", "MID", "INSERT", "DELETE", "REPLACE", "FIND", "LEN", "CONCAT") and any(re.search(r"[^\x00-\x7f]", l) for l in c["lits"]):
+                    key = f"stdlib:static-error:{c['res']}:string-multibyte"
+                elif name in ("SHL", "SHR", "ROL", "ROR") and any("#-" in l for l in c["lits"][1:]):
+                    key = f"stdlib:static-error:{c['res']}:negative-shift"
+                elif "BCD" in name and c["res"] == "TypeMismatch":
+                    key = "stdlib:static-error:TypeMismatch:invalid-bcd"
+                else:
+                    key = f"stdlib:static-error:{c['res']}:{name}({c['types']})"
+                rep.violation(key, {"stdlib": True, "function": name, "literals": c["lits"], "source": c["src"], "outcome": c["res"]},
+                              f"standard function {name}({', '.join(c['lits'])[:120]}) in an accepted program: {c['res']}")
     rc_runs = rc_events = 0
     if prop == "C03" and not replay:
         from checks.runtimecycle import tag_rejections
@@ -171,7 +208,7 @@ def run(prop, tier, replay):
     cov = {
         "states": max(mc["distinct"], 1) + len(rows), "transitions": max(mc["generated"], 1) + len(rows),
         "traces_validated_against_impl": len(runs),
-        "programs_typed_core": len(runs), "cycles_validated": ncyc, "programs_wide_generator": len(wide_rows), "operator_matrix_cases_full_width": len(op_rows),
+        "programs_typed_core": len(runs), "cycles_validated": ncyc, "programs_wide_generator": len(wide_rows), "operator_matrix_cases_full_width": len(op_rows), "stdlib_functions_called": sum(1 for r in std_rows if r["okClasses"] > 0), "stdlib_calls": sum(r["calls"] for r in std_rows),
         "profiles": {p: sum(1 for r in runs if scripts[r[0]["script"]]["profile"] == p) for p in ("matrix", "strict", "natural", "pous", "case")},
         "outcomes": outcomes,
         "runtime_cycle_runs_tag_checked": rc_runs, "runtime_cycle_events_tag_checked": rc_events,
